@@ -822,6 +822,15 @@ func genC13(repo string) (out string, err error) {
 		c.emitExpr("heightmap_bits_"+strconv.Itoa(i), args[0], false)
 		c.emitExpr("heightmap_len_"+strconv.Itoa(i), args[1], false)
 	}
+	for _, pr := range [][2]string{{"readStatesPalette", "NewStatesPaletteContainerWithData"}, {"readBiomesPalette", "NewBiomesPaletteContainerWithData"}} {
+		c.fn = pr[0]
+		fd = c.fun(c.fn)
+		calls := c.callArgs(fd, pr[1])
+		if len(calls) != 1 || len(calls[0]) != 3 {
+			c.fail(fd, "%d calls of %s", len(calls), pr[1])
+		}
+		c.emitExpr("length", calls[0][0], false)
+	}
 	c.fn = "countNoneAirBlocks"
 	fd = c.fun(c.fn)
 	{
@@ -839,6 +848,25 @@ func genC13(repo string) (out string, err error) {
 			c.fail(loop, "loop condition %s", c.txt(loop.Cond))
 		}
 		c.emitExpr("bound", be.Y, false)
+		// blockCount++ on the named int16 result
+		n := 0
+		ast.Inspect(loop.Body, func(nd ast.Node) bool {
+			if st, ok := nd.(*ast.IncDecStmt); ok {
+				if c.txt(st.X) != "blockCount" || st.Tok != token.INC {
+					c.fail(st, "inc/dec %s", c.txt(st))
+				}
+				sg, w := c.intType(st.X)
+				if !sg {
+					c.fail(st, "unsigned counter")
+				}
+				n++
+				fmt.Fprintf(&c.out, "(* countNoneAirBlocks: %s *)\nDefinition c13_countNoneAirBlocks_inc (g_blockCount : Z) : Z :=\n  (wrap_s %d (g_blockCount + 1)).\n\n", c.txt(st), w)
+			}
+			return true
+		})
+		if n != 1 {
+			c.fail(loop, "%d counter updates (one expected)", n)
+		}
 	}
 	// SetBlock: s.BlockCount-- / s.BlockCount++ on an int16
 	c.fn = "Section_SetBlock"
